@@ -761,8 +761,40 @@ def _json_check(ck, prove):
     for be in BACKENDS:
         r = res.get(be, {"error": "no result"})
         if r.get("error"):
-            # a store that cannot take a value inside the domain violates the property; report the error
-            ck.failing_input(f"JSON:{be}:raised", f"[{be}] storing/reading {len(datas)} JSON data values raised {r['error']}", {"backend": be, "error": r["error"]})
+            # a store that cannot take a value inside the domain violates the property: find one such value
+            found = None
+
+            def bad(idx):
+                r1 = run_stores([svals[k] for k in idx]).get(be, {})
+                recs = [(x, _as_data(svals[k], j)) for j, (k, rec) in enumerate(zip(idx, r1.get("single", []) + r1.get("bulk", [])))
+                        for x in rec.values() if isinstance(x, (tuple, list))]
+                if r1.get("error"):
+                    return r1["error"]
+                wrong = [x[0] for x, d in recs if not (x[1] or has_nan(d))]
+                return ("read back as " + wrong[0][:200]) if wrong else None
+
+            idx = [k for k, d in enumerate(datas) if py_wf(d)]
+            why = bad(idx)
+            while why and len(idx) > 1:                 # bisect to one value
+                a, b = idx[:len(idx) // 2], idx[len(idx) // 2:]
+                wa = bad(a)
+                if wa:
+                    idx, why = a, wa
+                    continue
+                wb = bad(b)
+                if wb:
+                    idx, why = b, wb
+                    continue
+                break
+            if why and len(idx) == 1:
+                found = (_as_data(svals[idx[0]], 0), why)
+            if found:
+                path = write_replay(ck, {"backend": be, "where": "insert+get", "data_json": json.dumps(found[0])})
+                ck.failing_input(f"JSON:{be}:raised", f"[{be}] data {show(found[0])}: {found[1]}",
+                                 {"backend": be, "replay_file": path, "data_json": show(found[0], 2000), "observed": found[1],
+                                  "rerun": f"VERIF_REPO={common.REPO} PYTHONPATH={common.REPO}:{common.VERIF} /venv/bin/python -m harness.jsonmodel replay {path}"})
+            else:
+                ck.failing_input(f"JSON:{be}:raised", f"[{be}] storing/reading {len(datas)} JSON data values raised {r['error']}", {"backend": be, "error": r["error"]})
             continue
         for k, rec in enumerate(r["single"]):
             for where in ("ret", "list", "byid"):
@@ -794,6 +826,18 @@ def _json_check(ck, prove):
                              {"data_json": show(d, 2000), "observed_json": text[:2000]})
         elif can != dback[k]:
             ck.disagreement("json:event-json-form", f"Event JSON form of data {show(d)} read back as {text[:160]}, model predicts {str(dback[k])[:160]}", {"data_json": show(d, 2000)})
+    # the whole text of to_json_str(): read by the model as json.loads reads it, and written again by the model
+    # from the dict it denotes (Model/JsonEvent.v: id, timestamp, duration, data in that order)
+    etexts = [x[0] for x in res.get("event_json", [])]
+    eouts = run([[1, cps(t)] for t in etexts] + [[0, to_wire(json.loads(t))] for t in etexts]) or []
+    for k, t in enumerate(etexts[:len(eouts) // 2]):
+        ck.evaluations += 1
+        lo, du = eouts[k], eouts[len(etexts) + k]
+        real = json.loads(t)
+        if lo[0] != 0 or canon_wire(lo[1]) != canon_py(real) or list(real) != ["id", "timestamp", "duration", "data"]:
+            ck.disagreement("json:event-text-loads", f"to_json_str() = {t[:200]}: model loads {str(lo)[:160]}", {"text": t[:2000]})
+        if du[0] != 0 or uncps(du[1]) != t:
+            ck.disagreement("json:event-text-dumps", f"to_json_str() = {t[:200]} but the model writes {uncps(du[1])[:200] if du[0] == 0 else du}", {"text": t[:2000]})
     ck.count("json:event-json-form-values", len(res.get("event_json", [])))
     summary["stored_values_per_backend"] = len(datas)
     summary["rule"] = RULE
